@@ -502,6 +502,42 @@ func dispatch(e *env, c Case, a, b, cc string) string {
 		}
 		_, err := crypto.BLSReconstructThresholdSignature(n, t, shares, signers)
 		return classify(true, err)
+	case "BLSReconstructThresholdSignatureSize":
+		n := map[string]int{"2": 2, "3": 3, "8": 8, "9": 9, "127": 127, "128": 128, "129": 129, "253": 253, "254": 254}[a]
+		t := 2
+		if n <= 3 {
+			t = 1
+		}
+		sks, _, _, err := crypto.BLSThresholdKeyGen(n, t, make([]byte, 32))
+		if err != nil {
+			return "untyped:" + err.Error()
+		}
+		var signers []int
+		switch b {
+		case "first":
+			for i := 0; i <= t; i++ {
+				signers = append(signers, i)
+			}
+		case "last":
+			for i := 0; i <= t; i++ {
+				signers = append(signers, n-1-i)
+			}
+		default:
+			signers = append(signers, 0, n-1)
+			if t == 2 {
+				signers = append(signers, n/2)
+			}
+		}
+		var shares []crypto.Signature
+		for _, i := range signers {
+			sg, _ := sks[i].Sign(e.msg, e.hasher)
+			shares = append(shares, sg)
+		}
+		shares[len(shares)-1] = e.bytesOf(cc, shares[len(shares)-1])
+		_, err = crypto.BLSReconstructThresholdSignature(n, t, shares, signers)
+		// a duplicated last signer, and one signer too many
+		crypto.BLSReconstructThresholdSignature(n, t, shares, append(append([]int{}, signers[:len(signers)-1]...), signers[0]))
+		return classify(true, err)
 	case "NewBLSThresholdSignatureInspector":
 		n := map[string]int{"nil": -1, "empty": 0, "one": 1, "two": 2, "many": 9}[b]
 		var pks []crypto.PublicKey
@@ -866,9 +902,16 @@ func dispatch(e *env, c Case, a, b, cc string) string {
 		}
 		d := map[string][]byte{"nil": nil, "empty": {}, "exact": e.msg, "huge": make([]byte, 100000)}[b]
 		h.ComputeHash(d)
+		h.SumHash() // a finalised object asked again (outside the documented use of the sponges: any result, no panic)
+		h.SumHash()
+		h.Write(d)
+		h.SumHash()
 		h.Reset()
 		h.Write(d)
 		h.SumHash()
+		h.SumHash()
+		h.ComputeHash(d)
+		h.ComputeHash(d)
 		var o3 [32]byte
 		hash.ComputeSHA3_256(&o3, d)
 		hash.ComputeSHA2_256(&o3, d)
